@@ -136,6 +136,7 @@ def check(case, rec):
                         (smode, omode, snaps[0], snaps[1]))
     r = a.merge(other, **kw)
     got = observe.snapshot(r)
+    observe.check_lookups(r, got, "merge result")
     # operands are untouched
     for k, (t, s) in enumerate(zip(tabs, snaps)):
         if observe.snapshot(t) != s:
